@@ -131,14 +131,18 @@ type RefArr struct {
 	Elem   types.Type
 	Base   string         // name prefix for memoised reads
 	Known  map[string]Val // index term string -> value (reads and concrete writes)
+	Idx    map[string]*Term // index term string -> index term (for re-keying under substitution)
 	Dirty  bool           // a write at a symbolic index happened: reads are no longer memoised by base
 	Ver    int
 }
 
 func cloneRefArr(r *RefArr) *RefArr {
-	n := &RefArr{Elem: r.Elem, Base: r.Base, Dirty: r.Dirty, Ver: r.Ver, Known: map[string]Val{}}
+	n := &RefArr{Elem: r.Elem, Base: r.Base, Dirty: r.Dirty, Ver: r.Ver, Known: map[string]Val{}, Idx: map[string]*Term{}}
 	for k, v := range r.Known {
 		n.Known[k] = v
+	}
+	for k, v := range r.Idx {
+		n.Idx[k] = v
 	}
 	return n
 }
